@@ -176,11 +176,19 @@ structure Hdr.WF (h : Hdr) : Prop where
   recLen : h.recLen < 2 ^ 16
   count : h.count ≤ maxPointCount h.vMinor
   ret : h.byReturn.length = 15 ∧ ∀ r ∈ h.byReturn, r < (if h.vMinor ≥ 4 then 2 ^ 64 else 2 ^ 32)
-  retLegacy : h.vMinor < 4 → h.byReturn.drop 5 = List.replicate 10 0
   doubles : h.doubles.length = 12 ∧ ∀ d ∈ h.doubles, d < 2 ^ 64
-  wave : h.waveformStart < 2 ^ 64 ∧ (h.vMinor < 3 → h.waveformStart = 0)
-  evlr : h.evlrStart < 2 ^ 64 ∧ h.nEvlrs < 2 ^ 32 ∧ (h.vMinor < 4 → h.evlrStart = 0 ∧ h.nEvlrs = 0)
+  wave : h.waveformStart < 2 ^ 64
+  evlr : h.evlrStart < 2 ^ 64 ∧ h.nEvlrs < 2 ^ 32
   vlrs : ∀ v ∈ h.vlrs, v.WF false ∧ v.payload.length ≤ 65535 ∧ factory v = v
   nvlrs : h.vlrs.length < 2 ^ 32
+
+/-- what a version can carry: before 1.4 only five per-return counts are stored and there are
+    no EVLR fields; before 1.3 no waveform pointer.  `canon h` is what reading back gives. -/
+def canon (h : Hdr) : Hdr :=
+  { h with
+    byReturn := if h.vMinor ≥ 4 then h.byReturn else h.byReturn.take 5 ++ List.replicate 10 0,
+    waveformStart := if h.vMinor ≥ 3 then h.waveformStart else 0,
+    evlrStart := if h.vMinor ≥ 4 then h.evlrStart else 0,
+    nEvlrs := if h.vMinor ≥ 4 then h.nEvlrs else 0 }
 
 end LasModel.Header
